@@ -161,7 +161,7 @@ Verdict ==
   IN "V|" \o ToString(tid) \o "|" \o ToString(cid) \o "|" \o ToString(k) \o "|" \o c
        \o "|" \o want.class \o "/" \o want.why \o "|" \o g.class \o "/" \o m.why
        \o "|" \o JoinS(m.ghost, 1) \o "|" \o ToString(m.steps)
-       \o "|" \o ToString(Len(m.fr)) \o "|" \o ToString(Len(m.exits))
+       \o "|" \o ToString(Len(m.fr)) \o "|" \o ToString(Len(m.exits)) \o "|" \o d      \* last field: the differential clause on its own
 
 Init == /\ tid \in 1..Len(Batch)
         /\ cid \in (IF "cids" \in DOMAIN Batch[tid] /\ Batch[tid].cids # <<>>
